@@ -31,27 +31,29 @@ var (
 type Term struct {
 	S    string
 	Sort *Sort
+	Op   string // set for applications built through App
+	Args []Term
 }
 
 func (t Term) String() string { return t.S }
 
 var (
-	TTrue  = Term{"true", SBool}
-	TFalse = Term{"false", SBool}
+	TTrue  = mkT("true", SBool)
+	TFalse = mkT("false", SBool)
 )
 
 func IntLit(n int64) Term {
 	if n < 0 {
-		return Term{fmt.Sprintf("(- %d)", -n), SInt}
+		return mkT(fmt.Sprintf("(- %d)", -n), SInt)
 	}
-	return Term{fmt.Sprintf("%d", n), SInt}
+	return mkT(fmt.Sprintf("%d", n), SInt)
 }
 
 func BigLit(n *big.Int) Term {
 	if n.Sign() < 0 {
-		return Term{"(- " + new(big.Int).Neg(n).String() + ")", SInt}
+		return mkT("(- " + new(big.Int).Neg(n).String() + ")", SInt)
 	}
-	return Term{n.String(), SInt}
+	return mkT(n.String(), SInt)
 }
 
 func BoolLit(b bool) Term {
@@ -100,7 +102,7 @@ func App(sort *Sort, f string, args ...Term) Term {
 		sb.WriteString(a.S)
 	}
 	sb.WriteByte(')')
-	return Term{sb.String(), sort}
+	return Term{S: sb.String(), Sort: sort, Op: f, Args: args}
 }
 
 func Not(a Term) Term {
@@ -111,7 +113,7 @@ func Not(a Term) Term {
 		return TTrue
 	}
 	if strings.HasPrefix(a.S, "(not ") {
-		return Term{a.S[5 : len(a.S)-1], SBool}
+		return mkT(a.S[5 : len(a.S)-1], SBool)
 	}
 	return App(SBool, "not", a)
 }
@@ -274,7 +276,30 @@ func Le(a, b Term) Term { return cmp("<=", a, b) }
 func Gt(a, b Term) Term { return cmp(">", a, b) }
 func Ge(a, b Term) Term { return cmp(">=", a, b) }
 
-func Select(arr, idx Term, elem *Sort) Term { return App(elem, "select", arr, idx) }
+func Select(arr, idx Term, elem *Sort) Term {
+	if arr.Op == "store" && len(arr.Args) == 3 && arr.Args[1].S == idx.S {
+		return arr.Args[2]
+	}
+	return App(elem, "select", arr, idx)
+}
+
+var rowAccIndex = map[string]int{"r.present": 0, "r.rowid": 1, "r.value": 2, "r.cas": 3, "r.exp": 4, "r.xattrs": 5,
+	"r.isJSON": 6, "r.tombstone": 7, "r.rev": 8,
+	"e.key": 0, "e.value": 1, "e.isDeletion": 2, "e.isJSON": 3, "e.xattrs": 4, "e.cas": 5, "e.exp": 6, "e.rev": 7,
+	"d.coll": 0, "d.key": 1}
+
+// Acc applies a datatype accessor, folding it over constructors and if-then-else.
+func Acc(sort *Sort, acc string, x Term) Term {
+	if i, ok := rowAccIndex[acc]; ok {
+		if (x.Op == "mkRow" || x.Op == "mkEvent" || x.Op == "mkId") && i < len(x.Args) {
+			return x.Args[i]
+		}
+		if x.Op == "ite" && len(x.Args) == 3 {
+			return Ite(x.Args[0], Acc(sort, acc, x.Args[1]), Acc(sort, acc, x.Args[2]))
+		}
+	}
+	return App(sort, acc, x)
+}
 func Store(arr, idx, v Term) Term           { return App(arr.Sort, "store", arr, idx, v) }
 
 // ---------------------------------------------------------------------------
@@ -318,3 +343,5 @@ const smtPrelude = `(set-option :produce-models true)
 func smtDecl(name string, sort *Sort) string {
 	return fmt.Sprintf("(declare-const %s %s)", name, sort.Name)
 }
+
+func mkT(s string, sort *Sort) Term { return Term{S: s, Sort: sort} }
